@@ -105,6 +105,16 @@ class Bounds:
         if isinstance(e, ast.Call) and norm(e.func) == "len" and len(e.args) == 1:
             s = norm(e.args[0])
             return (("len", s, 0), ("len", s, 0))
+        if isinstance(e, ast.BinOp) and isinstance(e.op, ast.Mod) and isinstance(e.right, ast.Constant) \
+                and isinstance(e.right.value, int) and e.right.value > 0:
+            return (("c", 0), ("c", e.right.value - 1))
+        if isinstance(e, ast.BinOp) and isinstance(e.op, ast.Sub) and isinstance(e.left, ast.Constant) \
+                and isinstance(e.left.value, int):
+            r = self.ev(e.right, st)
+            c = e.left.value
+            lo = ("c", c - r[1][1]) if r[1] is not None and r[1][0] == "c" else None
+            hi = ("c", c - r[0][1]) if r[0] is not None and r[0][0] == "c" else None
+            return (lo, hi)
         if isinstance(e, ast.BinOp) and isinstance(e.op, (ast.Add, ast.Sub)):
             l, r = self.ev(e.left, st), self.ev(e.right, st)
             sign = 1 if isinstance(e.op, ast.Add) else -1
